@@ -331,8 +331,19 @@ def run_shared(ctx):
     import mitxgraders as M
     rng = ctx.rng
     for i in range(ctx.n(480, 8000)):
-        mode = i % 5
-        if mode == 4:
+        mode = i % 6
+        if mode == 5:
+            # one comparer OBJECT (author configuration) shared by several graders: what it was asked before is irrelevant
+            def build():
+                comp = M.LinearComparer(equals=1.0, proportional=0.5, offset=0.4, linear=0.3)
+                kw = dict(variables=['x'], samples=4)
+                return {'F1': M.FormulaGrader(answers={'comparer': comp, 'comparer_params': ['x^2']}, **kw),
+                        'F0': M.FormulaGrader(answers={'comparer': comp, 'comparer_params': ['0*x']}, **kw),
+                        'M': M.MatrixGrader(answers={'comparer': comp, 'comparer_params': ['[x, x^2]']}, **kw)}
+            calls = {'F1': [(None, 'x^2'), (None, '2*x^2'), (None, '0'), (None, '3*x^2+1'), (None, 'x^2+5'), (None, 'x'), (None, '0*x')],
+                     'F0': [(None, '0'), (None, 'x'), (None, '0*x^2')],
+                     'M': [(None, '[x,x^2]'), (None, '2*[x,x^2]'), (None, '[0,0]'), (None, '3*[x,x^2]+[1,1]')]}
+        elif mode == 4:
             # a formula grader used for sibling answers of a list, standalone, and in a second list: names introduced
             # for one call (sibling_N, numbered instances) are not there for the next
             def build():
@@ -423,7 +434,7 @@ def run_shared(ctx):
             seq.append((name, e, s))
             dbg = bool(getattr(objs[name], 'config', {}).get('debug')) or mode == 1
             if norm(out, dbg) != norm(ref, dbg):
-                key = ['shared_subgrader', 'debug_subgrader', 'negative_powers', 'shared_parser', 'per_call_variables'][mode]
+                key = ['shared_subgrader', 'debug_subgrader', 'negative_powers', 'shared_parser', 'per_call_variables', 'shared_comparer'][mode]
                 ctx.violation('C11:shared:%s:%s' % (key, name), 'step %d (%s, expect %r, input %r) gave %r; on freshly built graders it gives %r'
                               % (pos, name, e, s, norm(out, dbg), norm(ref, dbg)), {'history': seq[-10:], 'mode': key})
                 break
